@@ -4,7 +4,13 @@ from . import c01 as B
 
 PID = "C09"
 FAM = 1
-ALLOWED_AXIOMS = set()
+ALLOWED_AXIOMS = {"Classical_Prop.classic", "ClassicalDedekindReals.sig_not_dec",
+                  "ClassicalDedekindReals.sig_forall_dec",
+                  "FunctionalExtensionality.functional_extensionality_dep"}
+MANIFEST = {
+    "text": 'Coq theorems over the broker model: actuate either fails without any effect or delivers exactly one request, value unchanged, to the registered, available, unexpired provider that claimed the id after all checks passed; batch_actuate forwards nothing unless every element passes every check and every addressed actuator has a live owner, and then forwards a permutation of the requested changes; stored values are never altered. Tied to the code by histories with several recording providers, duplicates, unknown ids, sensors, invalid values, partial permissions, provider loss and expiry, comparing every provider inbox after every operation; an all-or-nothing / exactly-once / right-owner monitor judges the implementation.',
+    "note": "Trusted: Coq kernel; the 4 standard-library axioms that enter through Flocq (used by validate's float comparisons) as printed by Print Assumptions; extraction + OCaml driver (vm_compute cross-check each run); harness/src/fam_hist.rs and hook H3 (verif_housekeeping_step); the Python monitors. Modelled, not verified: tokio broadcast (ring with capacity rounded up to a power of two, Lagged skipping) and RwLock, HashMap iteration order (outputs are sorted), the gRPC handlers on top of AuthorizedAccess (exercised by the handler-level checks), SystemTime (a timestamp is canonicalised to the operation during which it was taken; expiry is crossed in real time at a TICK).",
+}
 PROPS = set("C09,C02".split(","))
 WEIGHTS = H.W_ACT
 RULE = B.RULE
